@@ -286,6 +286,9 @@ namespace vsym {
   constexpr sym& sym::operator-=(const sym& o) { return *this = *this - o; }
   constexpr sym& sym::operator*=(const sym& o) { return *this = *this * o; }
   constexpr sym& sym::operator/=(const sym& o) { return *this = *this / o; }
+  constexpr sym& operator++(sym& a) { return a = a + sym(1); }
+  constexpr sym operator++(sym& a, int) { const sym r = a; a = a + sym(1); return r; }
+  constexpr sym& operator--(sym& a) { return a = a - sym(1); }
 
   // comparisons: decision points (see driver.hxx)
   bool decide_lt(const sym& a, const sym& b);
